@@ -3,8 +3,9 @@
         kind   = file|dir|linkfile|linkdir|stdin|url|gitrepo
         type   = auto|content|directory|origin|snapshot
         verify = none|match|nonmatch ; the flags are 0|1
-        -> ok inscope=0|1 literal=0|1 dev=0|1 des=<obj>,<excluded> model=<outcome> spec=<outcome> strict=<outcome>
-              old1=<outcome> old2=<outcome> old3=<outcome> repaired=<outcome>
+        -> ok inscope=0|1 literal=0|1 des=<obj>,<excluded> model=<outcome> spec=<outcome> strict=<outcome>
+              old1=<outcome> old2=<outcome> old3=<outcome> old4=<outcome>
+           (old1..old4 = the code before each of the four repairs: realpath str, rectype, autolink, recfollows)
            outcome = print,<obj>,<excluded>,<shown>,<listing> | usage | exit0 | exit1 | crash,<class>
      count  -> ok <length all_cfgs> *)
 let kind_of = function
@@ -33,11 +34,11 @@ let () = serve (function
                 ver = ver_of v; excl = bool_of x } in
       let (o, e) = designated c in
       String.concat " " [
-        "ok"; "inscope=" ^ b (in_scope c); "literal=" ^ b (in_scope_literal c); "dev=" ^ b (known_deviation c);
+        "ok"; "inscope=" ^ b (in_scope c); "literal=" ^ b (in_scope_literal c);
         "des=" ^ show_obj o ^ "," ^ b e;
         "model=" ^ show_outcome (identify_model c); "spec=" ^ show_outcome (spec c);
         "strict=" ^ show_outcome (spec_strict c);
         "old1=" ^ show_outcome (identify_old_realpath c); "old2=" ^ show_outcome (identify_old_rectype c);
-        "old3=" ^ show_outcome (identify_old_autolink c); "repaired=" ^ show_outcome (identify_repaired c) ]
+        "old3=" ^ show_outcome (identify_old_autolink c); "old4=" ^ show_outcome (identify_old_recfollows c) ]
   | ["count"] -> "ok " ^ string_of_int (List.length all_cfgs)
   | _ -> "err bad_request")
